@@ -225,6 +225,11 @@ def check_recv(c, st):
         bs = su.BufferedSocket(sock, timeout=c['timeout'], maxsize=c.get('maxsize', 32768),
                                recvsize=c['recvsize'])
         delivered = b''
+        # the deadline given with each call instead of (or against) the socket's own: every timed-out call is retried,
+        # so any positive value must lead to the same results
+        tkw = {'timeout': c['call_timeout']} if c.get('call_timeout') else {}
+        if tkw:
+            st.count('recv_cases_with_per_call_timeouts')
         bnds = boundaries(c['script'])
         interesting = any(e[0] in ('timeout', 'oserror') or (e[0] == 'data' and e[2] > 1) for e in c['script'])
 
@@ -261,15 +266,15 @@ def check_recv(c, st):
             while True:
                 try:
                     if call[0] == 'until':
-                        res = ('ok', bs.recv_until(call[1].encode('latin-1'), with_delimiter=call[3], **mskw))
+                        res = ('ok', bs.recv_until(call[1].encode('latin-1'), with_delimiter=call[3], **mskw, **tkw))
                     elif call[0] == 'size':
-                        res = ('ok', bs.recv_size(call[1]))
+                        res = ('ok', bs.recv_size(call[1], **tkw))
                     elif call[0] == 'peek':
-                        res = ('ok', bs.peek(call[1]))
+                        res = ('ok', bs.peek(call[1], **tkw))
                     elif call[0] == 'recv':
-                        res = ('ok', bs.recv(call[1]))
+                        res = ('ok', bs.recv(call[1], **tkw))
                     else:
-                        res = ('ok', bs.recv_close(**mskw))
+                        res = ('ok', bs.recv_close(**mskw, **tkw))
                 except su.Timeout:
                     p = conserve('after-timeout:' + call[0])
                     if p:
@@ -358,16 +363,17 @@ def check_send(c, st):
     ACTIVE_CLOCK[0] = clock
     try:
         bs = su.BufferedSocket(sock, timeout=c['timeout'])
+        stkw = {'timeout': c['call_timeout']} if c.get('call_timeout') else {}
         handed = b''
         for call in c['calls']:
             data = call[1].encode('latin-1') if len(call) > 1 else b''
             timed_out = False
             try:
                 if call[0] == 'send':
-                    bs.send(data)
+                    bs.send(data, **stkw)
                     handed += data
                 elif call[0] == 'sendall':
-                    bs.sendall(data)
+                    bs.sendall(data, **stkw)
                     handed += data
                 elif call[0] == 'buffer':
                     bs.buffer(data)
@@ -609,7 +615,8 @@ def gen(r):
                      for cl in calls]
         return {'kind': 'recv', 'stream': stream, 'script': script, 'timeout': timeout,
                 'recvsize': r.choice([1, 2, 3, 4, 8, 64, 4096]), 'calls': calls, 'full_socket': r.random() < 0.3,
-                'maxsize': r.choice([32768, 32768, 3, 10, 50, len(stream)]), 'set_maxsize': r.choice([1, 7, 40, 32768])}
+                'maxsize': r.choice([32768, 32768, 3, 10, 50, len(stream)]), 'set_maxsize': r.choice([1, 7, 40, 32768]),
+                'call_timeout': r.choice([None, None, timeout, 0.05, 1000.0]) if timeout else None}
     if 0.862 < x < 0.87:
         # 64 KB - 5 MB handed to one send/sendall/buffer+flush, accepted in pieces of 50-400 KB, with a fault late in it
         n = r.choice([1500000, 3 * 2 ** 20, 2 ** 20 + 1, 5000000, 65535, 65536, 65537, 70000, 131072, 300000])
@@ -637,7 +644,8 @@ def gen(r):
               for _ in range(r.randint(0, 12))]
         if r.random() < 0.4:
             ss = [['slow', x, r.choice([0.1, 0.6, 3.0, 6.0])] if isinstance(x, int) and r.random() < 0.5 else x for x in ss]
-        return {'kind': 'send', 'calls': calls, 'send_script': ss, 'timeout': r.choice([5.0, 0.5]), 'full': r.random() < 0.4}
+        return {'kind': 'send', 'calls': calls, 'send_script': ss, 'timeout': r.choice([5.0, 0.5]), 'full': r.random() < 0.4,
+                'call_timeout': r.choice([None, None, 0.5, 0.05, 1000.0])}
     maxsize = r.choice([32768, 32768, 1000, 100, 10, 9])
     payloads = [rbytes(r, min(maxsize, r.choice([0, 0, 1, 2, 5, 9, 10, 11, 99, 100, 101, 300, 1000])),
                        b',:0123456789ab\n') for _ in range(r.randint(1, 5))]
